@@ -6,13 +6,20 @@ ASSUMPTIONS = _world.ASSUMPTIONS
 RULE = ('seeded random histories biased towards touching an entity again between delete_entity and process '
         '(components removed one by one, deleted again, deleted immediately, re-created under the same id), '
         'several process() calls afterwards, scripted raising on_remove callbacks / processors in a share of '
-        'the scenarios; observed: entity_exists/entities/get_components around process, order of on_remove '
+        'the scenarios, and - one scenario in three - callbacks (on_remove, on_add, processors, plain events) '
+        'that call delete_entity themselves, also while the sweep of process() is running; observed: entity_exists/entities/get_components around process, order of on_remove '
         'versus Processor.process calls, exceptions of process.  Non-trivial as for C01.')
 TAGS = ('exists', 'entities', 'row', 'cb', 'res')
 CLAUSES = {'entity_exists', 'entities', 'get_components', 'process-raised', 'process-keeps-failing',
            'process-calls', 'unexpected-callback', 'missing-callback', 'wrong-callback', 'sweep-set', 'outcome',
            'shape', 'truncated', 'hang'}
 generate, project, oracle, nontrivial, stats = _world.make(
-    'C05', TAGS, CLAUSES, dict(n_comp=(1, 4), n_proc=(0, 2), handlers=0.6, raises=0.25,
-                               w=dict(delete=7, process=5, remove=5, create=3, add=3, clear=0.3, enable=0.7,
-                                      dispatch=0.3)))
+    'C05', TAGS, CLAUSES, [
+        dict(n_comp=(1, 4), n_proc=(0, 2), handlers=0.6, raises=0.25,
+             w=dict(delete=7, process=5, remove=5, create=3, add=3, clear=0.3, enable=0.7, dispatch=0.3)),
+        dict(n_comp=(1, 4), n_proc=(0, 2), handlers=0.6, raises=0.25,
+             w=dict(delete=7, process=5, remove=5, create=3, add=3, clear=0.3, enable=0.7, dispatch=0.3)),
+        # callbacks that call delete_entity themselves (an owner's on_remove deleting what it owns, ...)
+        dict(n_comp=(2, 4), n_proc=(0, 2), handlers=0.9, raises=0.15, reacts=0.9,
+             w=dict(delete=7, process=6, remove=4, create=5, add=4, clear=0.2, enable=0.3, dispatch=0.3)),
+    ])
